@@ -50,6 +50,7 @@ Definition spec_C19 (i : winput) (o : obs_C19) : bool :=
   | WBytes _ =>
       (* every binary load ends in build_with_defaults *)
       match o with Ok (ts, cat, mo) => defaults_ok ts cat mo | _ => true end
+  | WSub _ _ _ => true                   (* sub_ontology ends in build_minimal: no defaults *)
   | WBuilder s =>
       match builder_defaults (fst i) with
       | None => true                       (* build_minimal: no defaults requested *)
